@@ -165,6 +165,13 @@ EXTRA_PROGRAMS: Dict[str, Dict[str, Any]] = {
                                           "message_defs": {"MS": {"id": 4102, "fields": None}}}},
     "all-native-types": {"root.yaml": {"message_defs": {"MS": {"id": 4103, "fields": {f"f{i}": t for i, t in enumerate(defx.NATIVE_NAMES)}}},
                                        "struct_defs": {"ST": {"fields": {f"a{i}": f"{t}[2]" for i, t in enumerate(defx.NATIVE_NAMES)}}}}},
+    # arrays whose length is (or evaluates to) exactly one, of every native type, of a struct and of a message
+    "length-one-arrays": {"root.yaml": {"constants": {"N_CHAN": 6, "N_MASK": "(N_CHAN + 7) // 8", "ONE": 1},
+                                        "struct_defs": {"P1": {"fields": {"v": "int16"}},
+                                                        "ST1": {"fields": {**{f"a{i}": f"{t}[1]" for i, t in enumerate(defx.NATIVE_NAMES)}, "p": "P1[1]"}}},
+                                        "message_defs": {"IN1": {"id": 4111, "fields": {"a": "int32"}},
+                                                         "MS1": {"id": 4112, "fields": {**{f"m{i}": f"{t}[N_MASK]" for i, t in enumerate(defx.NATIVE_NAMES)},
+                                                                                        "s": "ST1[ONE]", "k": "IN1[1]"}}}}},
     "nested-depth": {"root.yaml": {"struct_defs": {"L1": {"fields": {"a": "int32"}}, "L2": {"fields": {"l": "L1[2]", "b": "int32"}}, "L3": {"fields": {"l": "L2[2]", "c": "int32"}}},
                                    "message_defs": {"MS": {"id": 4104, "fields": {"l": "L3[2]", "m": "L1"}}}}},
     "imports-chain": {"root.yaml": {"imports": ["a.yaml"], "message_defs": {"MS": {"id": 4105, "fields": {"s": "SB", "t": "ALB"}}}},
